@@ -12,37 +12,26 @@ From Verif Require Import Common.Base Gen.PrattTable JsExpr.Syntax JsExpr.Pratt 
 (* ---- the generated operator table ----------------------------------------------------------------------------------- *)
 
 (* The table T3 reads off parseExpressionSuffix / parseExpression equals the table computed from the standard's
-   productions, except for ONE parameter: after a prefix ++/-- the code records level Unary where
-   UpdateExpression : ++ UnaryExpression gives Update.  Missing for the full clause: that parameter. *)
-Theorem table_matches_standard_partial : pratt_rows_of_code = std_rows Unary.
-Proof. exact table_matches_standard_partial_proof. Qed.
-Print Assumptions table_matches_standard_partial.
-
-(* The code's table is NOT the standard's table (the differing row is the prefix ++/-- arm). *)
-Theorem table_matches_standard_refuted : pratt_rows_of_code <> pratt_rows_of_ecma262.
-Proof. exact table_matches_standard_refuted_proof. Qed.
-Print Assumptions table_matches_standard_refuted.
+   productions (every arm: the level at which it applies, the level it demands of its left operand, the level at
+   which its right operand is parsed, the level it records). *)
+Theorem table_matches_standard : pratt_rows_of_code = pratt_rows_of_ecma262.
+Proof. exact table_matches_standard_proof. Qed.
+Print Assumptions table_matches_standard.
 
 (* ---- completeness: every grammatical spelling yields the prescribed tree -------------------------------------------------- *)
 
 (* Every derivation of an Expression (minimal or redundant parentheses, any line breaks the grammar allows) is parsed
-   to exactly its tree, PROVIDED the tree has no node `++x ** y` / `--x ** y`.  Missing: those trees. *)
-Theorem pratt_complete_partial :
-  forall inf ts t, derives inf Expression ts t -> no_pue t = true -> parse inf prec_OpExpr ts = Ok (t, []).
-Proof. exact pratt_complete_partial_proof. Qed.
-Print Assumptions pratt_complete_partial.
+   to exactly its tree. *)
+Theorem pratt_complete :
+  forall inf ts t, derives inf Expression ts t -> parse inf prec_OpExpr ts = Ok (t, []).
+Proof. exact pratt_complete_proof. Qed.
+Print Assumptions pratt_complete.
 
-(* Without the proviso the clause is false: `++a ** b` is derivable and rejected. *)
-Theorem pratt_complete_refuted :
-  exists ts t, derives true Expression ts t /\ parse true prec_OpExpr ts = Fail.
-Proof. exact pratt_complete_refuted_proof. Qed.
-Print Assumptions pratt_complete_refuted.
-
-(* The same at the entry point that is diffed against js.Parse: a grammatical expression (without a `++x ** y` node, not
-   starting with the identifier `let`) given as a whole program is parsed to the single ExprStmt with exactly that tree.
-   Missing: as for pratt_complete_partial. *)
+(* The same at the entry point that is diffed against js.Parse: a grammatical expression given as a whole program is
+   parsed to the single ExprStmt with exactly that tree.  Missing: programs whose first token is the identifier `let`
+   (parseStmt looks ahead for a lexical declaration there; the model's statement layer does not cover that arm). *)
 Theorem program_of_expression_partial :
-  forall ts t, derives true Expression ts t -> no_pue t = true ->
+  forall ts t, derives true Expression ts t ->
     (forall k r, ts = k :: r -> ty k <> tt_LetToken) ->
     parse_program ts = Ok [SExpr t].
 Proof. exact program_of_expression_proof. Qed.
@@ -50,33 +39,20 @@ Print Assumptions program_of_expression_partial.
 
 (* ---- soundness: what is accepted is grammatical, with the grammar's tree ------------------------------------------------------- *)
 
-(* Whatever the model accepts is a derivation of the returned tree once the trailing commas that the code lets through
-   in `( ... , )` are deleted ([dropc true ts ts']).  Missing for the full clause: the undeleted token list. *)
-Theorem pratt_sound_partial :
-  forall inf ts t, parse inf prec_OpExpr ts = Ok (t, []) ->
-    exists ts', dropc true ts ts' /\ derives inf Expression ts' t.
-Proof. exact pratt_sound_partial_proof. Qed.
-Print Assumptions pratt_sound_partial.
-
-(* For token lists without `, )` the accepted input itself is a derivation of the returned tree. *)
-Theorem pratt_sound_strict :
-  forall inf ts t, parse inf prec_OpExpr ts = Ok (t, []) -> no_comma_close ts = true -> derives inf Expression ts t.
-Proof. exact pratt_sound_strict_proof. Qed.
-Print Assumptions pratt_sound_strict.
-
-(* The full clause is false: `(a,)` is accepted (as the tree of `(a)`) and is not derivable. *)
-Theorem pratt_sound_refuted :
-  exists ts t, parse true prec_OpExpr ts = Ok (t, []) /\ ~ derives true Expression ts t.
-Proof. exact pratt_sound_refuted_proof. Qed.
-Print Assumptions pratt_sound_refuted.
+(* Whatever the model accepts is a derivation of the returned tree from exactly the accepted token list. *)
+Theorem pratt_sound :
+  forall inf ts t, parse inf prec_OpExpr ts = Ok (t, []) -> derives inf Expression ts t.
+Proof. exact pratt_sound_proof. Qed.
+Print Assumptions pratt_sound.
 
 (* ---- the listed rejections, for arbitrary operands ------------------------------------------------------------------------------ *)
 
-(* `u x ** anything` is rejected for every prefix operator u (delete void typeof + - ~ ! ++ --) and every UnaryExpression x. *)
+(* `u x ** anything` is rejected for every unary operator u (delete void typeof + - ~ !) and every UnaryExpression x.
+   (`++x ** y` and `--x ** y` are UpdateExpression ** ..., grammatical, and covered by pratt_complete.) *)
 Theorem reject_unary_exp :
   forall inf u o xs x e rest,
-    In (ty u, o) unary_prods \/ In (ty u, o) prefix_update_prods ->
-    derives inf Unary xs x -> no_pue x = true -> ty e = tt_ExpToken ->
+    In (ty u, o) unary_prods ->
+    derives inf Unary xs x -> ty e = tt_ExpToken ->
     parse inf prec_OpExpr (u :: xs ++ e :: rest) = Fail.
 Proof. exact reject_unary_exp_proof. Qed.
 Print Assumptions reject_unary_exp.
@@ -84,7 +60,7 @@ Print Assumptions reject_unary_exp.
 (* `x ?? y || anything`, `x ?? y && anything`, `x || y ?? anything`, `x && y ?? anything` are rejected. *)
 Theorem reject_mixed_coalesce :
   forall inf xs x q ys y o rest,
-    derives inf BitOR xs x -> derives inf BitOR ys y -> no_pue x = true -> no_pue y = true ->
+    derives inf BitOR xs x -> derives inf BitOR ys y ->
     ty q = tt_NullishToken -> ty o = tt_OrToken \/ ty o = tt_AndToken ->
     parse inf prec_OpExpr (xs ++ q :: ys ++ o :: rest) = Fail /\
     parse inf prec_OpExpr (xs ++ o :: ys ++ q :: rest) = Fail.
@@ -95,11 +71,22 @@ Print Assumptions reject_mixed_coalesce.
 Theorem reject_assign_to_binary :
   forall inf a l ops r xs x k ys y e rest,
     In (a, l, ops, r) binary_prods -> a <> Assignment -> In (ty k) ops ->
-    derives inf l xs x -> derives inf r ys y -> no_pue (EBinary (ty k) x y) = true ->
+    derives inf l xs x -> derives inf r ys y ->
     In (ty e) assign_ops ->
     parse inf prec_OpExpr (xs ++ k :: ys ++ e :: rest) = Fail.
 Proof. exact reject_assign_to_binary_proof. Qed.
 Print Assumptions reject_assign_to_binary.
+
+(* `( Expression , )` is rejected unless `=>` follows (then it is an arrow head, outside the fragment), whatever else follows:
+   the trailing comma of the arrow cover grammar does not make a ParenthesizedExpression. *)
+Theorem reject_paren_trailing_comma :
+  forall inf ko xs x km kc rest,
+    ty ko = tt_OpenParenToken -> derives true Expression xs x ->
+    ty km = tt_CommaToken -> ty kc = tt_CloseParenToken ->
+    (forall a r, rest = a :: r -> ty a <> tt_ArrowToken) ->
+    parse inf prec_OpExpr (ko :: xs ++ km :: kc :: rest) = Fail.
+Proof. exact reject_paren_trailing_comma_proof. Qed.
+Print Assumptions reject_paren_trailing_comma.
 
 (* One ( ) [ or ] added anywhere to an accepted token list (read the other way: deleted from one) is never accepted. *)
 Theorem reject_unbalanced :
